@@ -62,6 +62,22 @@ def workload(tier, seed, scale=1.0):
         for d, fam in ((0, 'perfect'), (-1, 'perfect-1'), (1, 'perfect+1')):
             add(p + d, n, fam)
         add(-(p + rnd.choice((0, -1, 1))), n if n % 2 else n + 1, 'neg-perfect', 'I')
+    # small bases, every degree: r^n, r^n - 1, r^n + 1 for r in 2..12 (roots 1, 2, 3 ... at high degrees sit right at
+    # the "bit length vs degree" shortcuts)
+    small_degs = list(range(2, 1201)) if not quick else sorted(set(list(range(2, 40)) + list(range(190, 215)) + [253, 254, 306, 307, 400, 453, 1000, 1100] + [rnd.randrange(40, 1200) for _ in range(60)]))
+    for n in small_degs:
+        for r in ((2, 3, 4, 5, 7, 10, 12) if not quick else (2, 3, rnd.choice((4, 5, 6, 7, 10)))):
+            p = r ** n
+            add(p, n, 'small_base_pow', rnd.choice('UI'))
+            add(p - 1, n, 'small_base_pow-1')
+            if quick and n % 3:
+                continue
+            add(p + 1, n, 'small_base_pow+1')
+            if n % 2:
+                add(-p, n, 'small_base_neg', 'I')
+    for n in (5000, 26348, 100000):
+        add(3 ** n, n, 'huge_degree')
+        add(3 ** n - 1, n, 'huge_degree-1')
     # sqrt/cbrt of values with only top bits set above 2^1024 (scaled guess exactness)
     for bl in (1030, 1100, 2000, 2001, 2002, 3000, 4097, 5000):
         for t in (3, 5, 7, 2, 6, 0x1234567, rnd.getrandbits(60) | 1):
